@@ -20,7 +20,7 @@ from . import core
 LEVEL = "exploration"
 RULE = ("stores populated directly with rows of a generated fixture package: 0..6 valid rows (5 functions incl. a method, a "
         "function in a module three packages deep, a generator) interleaved at drawn positions and calendar days with 0..6 stale "
-        "rows of 32 kinds (module / submodule / middle package removed, function removed, function now an int / a class / a "
+        "rows of 34 kinds (module / submodule / middle package removed, function removed, function now an int / a class / a "
         "settable property, local-scope qualname, argument / return / yield class removed, class's module or middle package "
         "removed, name now bound to a non-type, malformed generic); every single kind and every pair of kinds exhaustively around "
         "a fixed base; commands stub, stub --diff and apply, with and without -v, with and without a :qualname filter. Oracle: differential "
@@ -39,6 +39,7 @@ class NowClass:
 
 
 now_int = 3
+now_dict = {'was': 'a class'}
 NowNone = None
 now_list = [1]
 
@@ -151,6 +152,9 @@ class Fixture:
             "class-middle-package-removed": (M, "f", {"a": T(P + ".gone.models.deep", "C"), "b": NONE}, INT, None),
             "class-now-non-type": (M, "f", {"a": T(M, "now_int"), "b": NONE}, INT, None),
             "nested-class-now-non-type": (M, "g", {"x": T("typing", "List", [T(M, "now_int")])}, INT, None),
+            # ... to a value that cannot even be hashed (a module-level list / dict that took over the name)
+            "class-now-unhashable-list": (M, "f", {"a": T(M, "now_list"), "b": NONE}, INT, None),
+            "nested-class-now-unhashable-dict": (M, "g", {"x": T("typing", "List", [T(M, "now_dict")])}, INT, None),
             "nested-class-now-function": (M, "f", {"a": T("typing", "Dict", [STR, T(M, "g")]), "b": NONE}, T("typing", "List", [T(M, "outer")]), None),
             "class-now-function": (M, "K.m", {"self": T(M, "K"), "a": T(M, "g")}, INT, None),
             # dotted names whose LEADING component is still there but is no longer a class (a method's class, the outer class of
